@@ -3,6 +3,7 @@ package config
 import (
 	"errors"
 	"fmt"
+	"net/url"
 	"runtime"
 	"runtime/debug"
 	"time"
@@ -127,6 +128,7 @@ func Initialize() (*Config, error) {
 	masked.OpenID.ClientJWK = redacted
 	masked.OpenID.ClientSecret = redacted
 	masked.Redis.Password = redacted
+	masked.Redis.URI = redactURIPassword(cfg.Redis.URI, redacted)
 	logger.Infof("config: %+v", masked)
 
 	if err := cfg.Validate(); err != nil {
@@ -134,6 +136,25 @@ func Initialize() (*Config, error) {
 	}
 
 	return cfg, nil
+}
+
+// redactURIPassword replaces the password in the userinfo component of the given URI, if any.
+// A non-empty value that cannot be parsed as a URI is redacted entirely.
+func redactURIPassword(uri, replacement string) string {
+	if uri == "" {
+		return uri
+	}
+
+	u, err := url.Parse(uri)
+	if err != nil {
+		return replacement
+	}
+
+	if _, hasPassword := u.User.Password(); hasPassword {
+		u.User = url.UserPassword(u.User.Username(), replacement)
+	}
+
+	return u.String()
 }
 
 func (c *Config) Validate() error {
